@@ -426,11 +426,13 @@ theorem Tree.table_ok (f : FileRec) (cs : List Tree) (h : 16 + (cs.length + 1) *
 theorem archLoop_leafAt (p : Bytes) (f : FileRec) (hf : LeafWF p f) (d : Bytes) (sz : UInt64)
     (t : Elem) (ht : IsTerm t)
     (R R' : Bytes) (hdt : ∀ a, ∃ a', decNext ⟨R, a⟩ = .ok (some t, ⟨R', a'⟩))
-    (a F : Nat) (hF : f.xattrs.length + 4 ≤ F) :
-    ∃ s', archLoop F ⟨⟨leafBody f ++ R, a⟩, d, some (.filename sz f.base), 0⟩
+    (a F : Nat) (hF : f.xattrs.length + 4 ≤ F) (nd : Nat) :
+    ∃ s', archLoop F ⟨⟨leafBody f ++ R, a⟩, d, some (.filename sz f.base), 0, nd, false⟩
               ⟨none, [], [], none, none⟩ = .ok (some (leafNodeAt d f), s') ∧
-      ((∃ a', s' = ⟨⟨R, a'⟩, d, none, 0⟩) ∨ (∃ a', s' = ⟨⟨R', a'⟩, d, some t, 0⟩)) := by
+      ((∃ a', s' = ⟨⟨R, a'⟩, d, none, 0, nd + 1, false⟩) ∨
+       (∃ a', s' = ⟨⟨R', a'⟩, d, some t, 0, nd + 1, false⟩)) := by
   obtain ⟨hkind, _, hname, _, hreg, hsym, hxa, hnd⟩ := hf
+  have hne := validName_ne_nil hname
   have hfold : xattrFold [] f.xattrs = f.xattrs := by
     simpa using xattrFold_nodup [] f.xattrs (by simpa using hnd)
   rcases hkind with hk | hk | hk
@@ -445,7 +447,7 @@ theorem archLoop_leafAt (p : Bytes) (f : FileRec) (hf : LeafWF p f) (d : Bytes) 
       simp only [leafBody, leafTail, hk, entryElem, List.append_assoc]
     obtain ⟨a', hx⟩ := archLoop_xattrs f.xattrs hxa (k + 1)
       (encElem (.payload (16 + f.size)) ++ (f.data ++ R)) d 0
-      (f.mode, f.uid, f.gid, f.mtime) f.base none none a []
+      (f.mode, f.uid, f.gid, f.mtime) f.base none none a [] nd false
     have hd2 := decNext_payload_enc (16 + f.size) (f.data ++ R) a'
       (by rw [hsz, h1]; omega) (by rw [hsz, h1]; omega)
     have hp : takePayload ((16 + f.size).toNat - 16) ⟨f.data ++ R, a'⟩ = .ok (f.data, ⟨R, a'⟩) := by
@@ -453,7 +455,7 @@ theorem archLoop_leafAt (p : Bytes) (f : FileRec) (hf : LeafWF p f) (d : Bytes) 
       exact takePayload_append _ _ _
     refine ⟨_, ?_, Or.inl ⟨a', rfl⟩⟩
     rw [hbody, archLoop_last_filename (hn := hname),
-      archLoop_entry (hd := decNext_entry_enc ..), hx, archLoop_payload (hd := hd2) (ht := hp)]
+      archLoop_entry (hd := decNext_entry_enc ..), hx, archLoop_payload (hnm := hne) (hd := hd2) (ht := hp)]
     simp [leafNodeAt, hk, Pending.meta, hfold, hsz, h2]
   · -- symlink
     have hts := hsym hk
@@ -466,13 +468,13 @@ theorem archLoop_leafAt (p : Bytes) (f : FileRec) (hf : LeafWF p f) (d : Bytes) 
       simp only [leafBody, leafTail, hk, entryElem, List.append_assoc]
     obtain ⟨a', hx⟩ := archLoop_xattrs f.xattrs hxa (k + 1 + 1)
       (encElem (.symlink (UInt64.ofNat (16 + f.target.length + 1)) f.target) ++ R) d 0
-      (f.mode, f.uid, f.gid, f.mtime) f.base none none a []
+      (f.mode, f.uid, f.gid, f.mtime) f.base none none a [] nd false
     have hd2 := decNext_symlink_enc f.target R a' hts
     obtain ⟨a'', hd3⟩ := hdt (a' + f.target.length + 1)
     refine ⟨_, ?_, Or.inr ⟨a'', rfl⟩⟩
     rw [hbody, archLoop_last_filename (hn := hname),
       archLoop_entry (hd := decNext_entry_enc ..), hx, archLoop_symlink (hd := hd2),
-      archLoop_term_symlink (ht := ht) (hd := hd3)]
+      archLoop_term_symlink (hnm := hne) (ht := ht) (hd := hd3)]
     simp [leafNodeAt, hk, Pending.meta, hfold]
   · -- device node
     obtain ⟨k, rfl⟩ : ∃ k, F = k + 1 + 1 + f.xattrs.length + 1 + 1 :=
@@ -483,13 +485,13 @@ theorem archLoop_leafAt (p : Bytes) (f : FileRec) (hf : LeafWF p f) (d : Bytes) 
       simp only [leafBody, leafTail, hk, entryElem, List.append_assoc]
     obtain ⟨a', hx⟩ := archLoop_xattrs f.xattrs hxa (k + 1 + 1)
       (encElem (.device 32 f.major f.minor) ++ R) d 0
-      (f.mode, f.uid, f.gid, f.mtime) f.base none none a []
+      (f.mode, f.uid, f.gid, f.mtime) f.base none none a [] nd false
     have hd2 := decNext_device_enc f.major f.minor R a'
     obtain ⟨a'', hd3⟩ := hdt a'
     refine ⟨_, ?_, Or.inr ⟨a'', rfl⟩⟩
     rw [hbody, archLoop_last_filename (hn := hname),
       archLoop_entry (hd := decNext_entry_enc ..), hx, archLoop_device (hd := hd2),
-      archLoop_term_device (ht := ht) (hd := hd3)]
+      archLoop_term_device (hnm := hne) (ht := ht) (hd := hd3)]
     simp [leafNodeAt, hk, Pending.meta, hfold]
 
 /-- a directory child: filename (look-ahead), entry, xattrs, then the terminator `t` (the first
@@ -498,23 +500,23 @@ theorem archLoop_leafAt (p : Bytes) (f : FileRec) (hf : LeafWF p f) (d : Bytes) 
 theorem archLoop_dirAt (f : FileRec) (hx : XattrsOK f.xattrs) (hname : validName f.base = true)
     (d : Bytes) (sz : UInt64) (t : Elem) (ht : IsTerm t)
     (R R' : Bytes) (hdt : ∀ a, ∃ a', decNext ⟨R, a⟩ = .ok (some t, ⟨R', a'⟩))
-    (a F : Nat) (hF : f.xattrs.length + 3 ≤ F) :
+    (a F : Nat) (hF : f.xattrs.length + 3 ≤ F) (nd : Nat) :
     ∃ a', archLoop F ⟨⟨encElem (entryElem f) ++ (encXattrs f.xattrs ++ R), a⟩, d,
-                some (.filename sz f.base), 0⟩ ⟨none, [], [], none, none⟩
+                some (.filename sz f.base), 0, nd, false⟩ ⟨none, [], [], none, none⟩
       = .ok (some (.dir (joinPath d f.base) ⟨f.uid, f.gid, f.mode, f.mtime, f.xattrs⟩),
-          ⟨⟨R', a'⟩, joinPath d f.base, some t, 0⟩) := by
+          ⟨⟨R', a'⟩, joinPath d f.base, some t, 0, nd + 1, false⟩) := by
   obtain ⟨hxa, hnd⟩ := hx
   have hfold : xattrFold [] f.xattrs = f.xattrs := by
     simpa using xattrFold_nodup [] f.xattrs (by simpa using hnd)
   obtain ⟨k, rfl⟩ : ∃ k, F = k + 1 + f.xattrs.length + 1 + 1 :=
     ⟨F - (f.xattrs.length + 3), by omega⟩
   obtain ⟨a', hxs⟩ := archLoop_xattrs f.xattrs hxa (k + 1) R d 0
-    (f.mode, f.uid, f.gid, f.mtime) f.base none none a []
+    (f.mode, f.uid, f.gid, f.mtime) f.base none none a [] nd false
   obtain ⟨a'', hd3⟩ := hdt a'
   refine ⟨a'', ?_⟩
   simp only [entryElem]
   rw [archLoop_last_filename (hn := hname), archLoop_entry (hd := decNext_entry_enc ..), hxs,
-    archLoop_term_dir (ht := ht) (hd := hd3)]
+    archLoop_term_dir (hadm := .inr (validName_ne_nil hname)) (ht := ht) (hd := hd3)]
   simp [Pending.meta, hfold]
 
 /-! ### the decoder between two calls of `Next` -/
@@ -555,8 +557,8 @@ theorem decNext_headT (p : Bytes) (anc : List Bytes) (cs : List Tree) (items : L
 /-- decoder states in the directory the decoder calls `d`, in front of its remaining children `cs`:
     either nothing has been read of them, or their first element has been read as look-ahead -/
 def ReadyT (cs : List Tree) (items : List GoodbyeItem) (K d : Bytes) (s : ArchDec) : Prop :=
-  (∃ a, s = ⟨⟨Tree.bodies cs ++ (encElem (goodbyeElem items) ++ K), a⟩, d, none, 0⟩) ∨
-  (∃ a, s = ⟨⟨tailBytesT cs items K, a⟩, d, some (headElemT cs items), 0⟩)
+  (∃ a nd, s = ⟨⟨Tree.bodies cs ++ (encElem (goodbyeElem items) ++ K), a⟩, d, none, 0, nd, false⟩) ∨
+  (∃ a nd, s = ⟨⟨tailBytesT cs items K, a⟩, d, some (headElemT cs items), 0, nd, false⟩)
 
 /-- one open directory: the decoder's name for it, its remaining children, its goodbye table -/
 structure Frame where
@@ -584,7 +586,7 @@ def StackOK : List Frame → Prop
 
 def ReadyStack (st : List Frame) (s : ArchDec) : Prop :=
   match st with
-  | [] => ∃ a d, s = ⟨⟨[], a⟩, d, none, 0⟩
+  | [] => ∃ a d nd, s = ⟨⟨[], a⟩, d, none, 0, nd, false⟩
   | fr :: rest => ReadyT fr.cs fr.items (stackBytes rest) fr.d s
 
 /-- iterations of `archLoop` until the next node (or the end) comes out -/
@@ -617,7 +619,7 @@ theorem need_le (st : List Frame) (s : ArchDec) (hs : ReadyStack st s) :
   | cons fr rest =>
     have h1 := need_le_stackBytes (fr :: rest)
     obtain ⟨d, cs, items⟩ := fr
-    rcases hs with ⟨a, rfl⟩ | ⟨a, rfl⟩
+    rcases hs with ⟨a, nd, rfl⟩ | ⟨a, nd, rfl⟩
     · simp only [stackBytes] at h1
       simp only
       omega
@@ -640,7 +642,7 @@ theorem next_stack (st : List Frame) : StackOK st → ∀ (s : ArchDec), ReadySt
   induction st with
   | nil =>
     intro _ s hs F hF
-    obtain ⟨a, d, rfl⟩ := hs
+    obtain ⟨a, d, nd, rfl⟩ := hs
     obtain ⟨k, rfl⟩ : ∃ k, F = k + 1 := ⟨F - 1, by simp [need] at hF; omega⟩
     exact Or.inl ⟨rfl, _, archLoop_eof (hd := decNext_nil a) ..⟩
   | cons fr rest ih =>
@@ -653,24 +655,25 @@ theorem next_stack (st : List Frame) : StackOK st → ∀ (s : ArchDec), ReadySt
       -- the directory is finished: its goodbye table is skipped and the loop goes on
       obtain ⟨k, rfl⟩ : ∃ k, F = k + 1 := ⟨F - 1, by simp [need] at hF; omega⟩
       have hk : need rest ≤ k := by simp [need] at hF; omega
-      have hpop : ∃ a', archLoop (k + 1) s ⟨none, [], [], none, none⟩
-          = archLoop k ⟨⟨stackBytes rest, a'⟩, dirOf d, none, 0⟩ ⟨none, [], [], none, none⟩ := by
-        rcases hs with ⟨a, rfl⟩ | ⟨a, rfl⟩
+      have hpop : ∃ a' nd, archLoop (k + 1) s ⟨none, [], [], none, none⟩
+          = archLoop k ⟨⟨stackBytes rest, a'⟩, dirOf d, none, 0, nd, false⟩
+              ⟨none, [], [], none, none⟩ := by
+        rcases hs with ⟨a, nd, rfl⟩ | ⟨a, nd, rfl⟩
         · obtain ⟨⟨hne, htail⟩, hlen⟩ := hit
           have hdn := decNext_goodbye_enc items (stackBytes rest) a hne htail hlen
-          exact ⟨_, by
+          exact ⟨_, nd, by
             simp only [Tree.bodies, List.nil_append, goodbyeElem]
             rw [archLoop_goodbye_pop (hd := hdn)]⟩
-        · exact ⟨a, by
+        · exact ⟨a, nd, by
             simp only [tailBytesT, headElemT, goodbyeElem]
             rw [archLoop_last_goodbye]⟩
-      obtain ⟨a', hpop⟩ := hpop
-      have hs2 : ReadyStack rest ⟨⟨stackBytes rest, a'⟩, dirOf d, none, 0⟩ := by
+      obtain ⟨a', nd, hpop⟩ := hpop
+      have hs2 : ReadyStack rest ⟨⟨stackBytes rest, a'⟩, dirOf d, none, 0, nd, false⟩ := by
         cases rest with
-        | nil => exact ⟨a', dirOf d, rfl⟩
+        | nil => exact ⟨a', dirOf d, nd, rfl⟩
         | cons fr' rest' =>
           have := hchain fr' rfl
-          exact Or.inl ⟨a', by simp [stackBytes, this]⟩
+          exact Or.inl ⟨a', nd, by simp [stackBytes, this]⟩
       rw [hpop]
       have hn : stackNodes (⟨d, [], items⟩ :: rest) = stackNodes rest := by
         simp [stackNodes, Tree.nodesList]
@@ -681,16 +684,16 @@ theorem next_stack (st : List Frame) : StackOK st → ∀ (s : ArchDec), ReadySt
       obtain ⟨hc, hcs⟩ := hcs
       have hF' : c.hd.xattrs.length + 4 ≤ F := by simpa [need] using hF
       -- bring the state into look-ahead form
-      have hlook : ∃ a, archLoop F s ⟨none, [], [], none, none⟩
+      have hlook : ∃ a nd, archLoop F s ⟨none, [], [], none, none⟩
           = archLoop F ⟨⟨tailBytesT (c :: cs) items (stackBytes rest), a⟩, d,
-              some (headElemT (c :: cs) items), 0⟩ ⟨none, [], [], none, none⟩ := by
-        rcases hs with ⟨a, rfl⟩ | ⟨a, rfl⟩
+              some (headElemT (c :: cs) items), 0, nd, false⟩ ⟨none, [], [], none, none⟩ := by
+        rcases hs with ⟨a, nd, rfl⟩ | ⟨a, nd, rfl⟩
         · obtain ⟨a1, hdn⟩ := decNext_headT p anc (c :: cs) items (stackBytes rest)
             (by simp only [Tree.WFList]; exact ⟨hc, hcs⟩) hit a
           obtain ⟨k, rfl⟩ : ∃ k, F = k + 1 := ⟨F - 1, by omega⟩
-          exact ⟨a1, archLoop_peek (hd := hdn) ..⟩
-        · exact ⟨a, rfl⟩
-      obtain ⟨a, hlook⟩ := hlook
+          exact ⟨a1, nd, archLoop_peek (hd := hdn) ..⟩
+        · exact ⟨a, nd, rfl⟩
+      obtain ⟨a, nd, hlook⟩ := hlook
       rw [hlook]
       refine Or.inr ?_
       cases c with
@@ -698,12 +701,14 @@ theorem next_stack (st : List Frame) : StackOK st → ∀ (s : ArchDec), ReadySt
         simp only [Tree.WF] at hc
         obtain ⟨s', h, hr⟩ := archLoop_leafAt p f hc d (UInt64.ofNat (16 + f.base.length + 1))
           (headElemT cs items) (headElemT_isTerm cs items) _ (tailBytesT cs items (stackBytes rest))
-          (decNext_headT p anc cs items (stackBytes rest) hcs hit) a F hF'
+          (decNext_headT p anc cs items (stackBytes rest) hcs hit) a F hF' nd
         refine ⟨leafNodeAt d f, ⟨d, cs, items⟩ :: rest, s', ?_, ?_, ?_, ?_⟩
         · simpa [tailBytesT, headElemT, fnameElem, Tree.hd, Tree.body] using h
         · simp [stackNodes, Tree.nodesList, Tree.nodes]
         · exact ⟨⟨hit, ⟨p, anc, hcs⟩, hdne⟩, hchain, hrest⟩
-        · exact hr
+        · rcases hr with ⟨a', rfl⟩ | ⟨a', rfl⟩
+          · exact Or.inl ⟨a', _, rfl⟩
+          · exact Or.inr ⟨a', _, rfl⟩
       | dir f gcs =>
         simp only [Tree.WF] at hc
         obtain ⟨_, _, _, hname, _, hx, hsz, hgcs⟩ := hc
@@ -712,12 +717,12 @@ theorem next_stack (st : List Frame) : StackOK st → ∀ (s : ArchDec), ReadySt
           (headElemT gcs (Tree.table f gcs)) (headElemT_isTerm _ _) _
           (tailBytesT gcs (Tree.table f gcs)
             (Tree.bodies cs ++ (encElem (goodbyeElem items) ++ stackBytes rest)))
-          (decNext_headT _ _ gcs (Tree.table f gcs) _ hgcs htab) a F (by simp [Tree.hd] at hF'; omega)
+          (decNext_headT _ _ gcs (Tree.table f gcs) _ hgcs htab) a F (by simp [Tree.hd] at hF'; omega) nd
         refine ⟨.dir (joinPath d f.base) ⟨f.uid, f.gid, f.mode, f.mtime, f.xattrs⟩,
           ⟨joinPath d f.base, gcs, Tree.table f gcs⟩ :: ⟨d, cs, items⟩ :: rest,
           ⟨⟨tailBytesT gcs (Tree.table f gcs)
             (Tree.bodies cs ++ (encElem (goodbyeElem items) ++ stackBytes rest)), a'⟩,
-            joinPath d f.base, some (headElemT gcs (Tree.table f gcs)), 0⟩, ?_, ?_, ?_, ?_⟩
+            joinPath d f.base, some (headElemT gcs (Tree.table f gcs)), 0, nd + 1, false⟩, ?_, ?_, ?_, ?_⟩
         · simpa [tailBytesT, headElemT, fnameElem, Tree.hd, Tree.body_dir, List.append_assoc] using h
         · simp [stackNodes, Tree.nodesList, Tree.nodes]
         · refine ⟨⟨htab, ⟨_, _, hgcs⟩, joinPath_ne_nil (validName_ne_nil hname)⟩, ?_,
@@ -726,7 +731,7 @@ theorem next_stack (st : List Frame) : StackOK st → ∀ (s : ArchDec), ReadySt
           simp only [List.head?_cons, Option.some.injEq] at hfr'
           subst hfr'
           exact dirOf_joinPath hdne hname
-        · exact Or.inr ⟨a', rfl⟩
+        · exact Or.inr ⟨a', _, rfl⟩
 
 theorem untarNodes_stack (fuel : Nat) : ∀ (st : List Frame) (s : ArchDec) (acc : List Node),
     StackOK st → ReadyStack st s → (stackNodes st).length + 1 ≤ fuel →
@@ -751,7 +756,7 @@ theorem untarNodes_stack (fuel : Nat) : ∀ (st : List Frame) (s : ArchDec) (acc
 
 theorem next_tree_root (r : FileRec) (cs : List Tree) (hrx : XattrsOK r.xattrs)
     (hsize : 16 + (cs.length + 1) * 24 < 2 ^ 64) (hcs : Tree.WFList r.path [r.path] cs) :
-    ∃ s', ArchDec.next ⟨⟨(Tree.dir r cs).body, 0⟩, [dot], none, 0⟩
+    ∃ s', ArchDec.next ⟨⟨(Tree.dir r cs).body, 0⟩, [dot], none, 0, 0, false⟩
         = .ok (some (.dir [dot] ⟨r.uid, r.gid, r.mode, r.mtime, r.xattrs⟩), s') ∧
       ReadyStack [⟨[dot], cs, Tree.table r cs⟩] s' := by
   obtain ⟨hxa, hnd⟩ := hrx
@@ -764,16 +769,16 @@ theorem next_tree_root (r : FileRec) (cs : List Tree) (hrx : XattrsOK r.xattrs)
       simp only [Tree.body_dir, List.length_append, (entryElem_size r).1]; omega⟩
   obtain ⟨a', hx⟩ := archLoop_xattrs r.xattrs hxa (k + 1)
     (Tree.bodies cs ++ (encElem (goodbyeElem (Tree.table r cs)) ++ [])) [dot] 0
-    (r.mode, r.uid, r.gid, r.mtime) [] none none 0 []
+    (r.mode, r.uid, r.gid, r.mtime) [] none none 0 [] 0 false
   obtain ⟨a'', hd⟩ := decNext_headT _ _ cs (Tree.table r cs) [] hcs hit a'
-  refine ⟨_, ?_, Or.inr ⟨a'', rfl⟩⟩
+  refine ⟨_, ?_, Or.inr ⟨a'', 1, rfl⟩⟩
   unfold ArchDec.next
   show archLoop ((Tree.dir r cs).body.length + 2) _ ⟨none, [], [], none, none⟩ = _
   rw [hk]
   simp only [Tree.body_dir, entryElem]
   rw [List.append_nil] at hx hd
   rw [archLoop_entry (hd := decNext_entry_enc ..), hx,
-    archLoop_term_dir (ht := headElemT_isTerm cs _) (hd := hd)]
+    archLoop_term_dir (hadm := .inl rfl) (ht := headElemT_isTerm cs _) (hd := hd)]
   simp [joinPath, Pending.meta, hfold, stackBytes]
 
 /-- the decoder half -/
@@ -792,7 +797,7 @@ theorem untar_tree_body (r : FileRec) (cs : List Tree) (hrx : XattrsOK r.xattrs)
       simp only [stackNodes, List.append_nil, Tree.body_dir, List.length_append]; omega⟩
   unfold untar
   rw [hk.1, untarNodes]
-  show (ArchDec.next ⟨⟨(Tree.dir r cs).body, 0⟩, [dot], none, 0⟩ >>= _) = _
+  show (ArchDec.next ⟨⟨(Tree.dir r cs).body, 0⟩, [dot], none, 0, 0, false⟩ >>= _) = _
   rw [h]
   simp only [Res.ok_bind]
   rw [untarNodes_stack k _ s' _ hok hr hk.2]
